@@ -16,6 +16,11 @@ layout that decide which items a loop visits, into Gallina (coq/Gen/FiltersGen.v
                               every call on `tree` that addresses a node: where, and to which node (syntactic scan)
   src/compute/grid/mod.rs     compute_grid_layout: closures get_child_styles_iter / in_flow_children_iter
                                                                               -> grid_estimate_children / grid_in_flow_children
+                              the final `(0..tree.child_count(node)).for_each(|index| ..)` loop: the conditions of its two `if`s
+                                                                              -> grid_final_loop_hidden_test / grid_final_loop_absolute_test
+                                (+ syntactic checks: the hidden branch is the canonical perform_child_layout / set_unrounded_layout(with_order(order))
+                                 pair on the child, `order += 1; return`; the absolute branch one align_and_position_item(tree, child, order, ..))
+  src/compute/grid/*.rs       every call on `tree` that addresses a node: in which function, to which node (syntactic scan)
 
 Source forms understood (anything else: Refuse -- the Gen file then does not compile):
   pipeline  := tree.child_ids(node) { .enumerate() | .map(closure) | .filter(closure) }* [.collect()]
@@ -541,6 +546,7 @@ def generate(repo):
         if c[2] not in ('perform_child_layout', 'set_unrounded_layout') or not c[3] or c[3][0] != ('path', [child]):
             raise Refuse('hidden loop: tree.%s' % c[2])
     flex_loops(ftoks, variants, w, fps)
+    grid_loops(repo, gtoks, variants, w, fps)
     return '\n'.join(out) + '\n', fps
 
 
@@ -658,6 +664,111 @@ def flex_loops(ftoks, variants, w, fps):
     w('   in the translated item pipeline, in the hidden loop, in the absolute pass (addressed to that loop\'s child), or in one of the item')
     w('   functions, addressed to `<item>.node`: %s *)' % ' '.join(seen))
     w('Definition flex_tree_calls_address_item_only : bool := true.')
+
+
+GRID_FILES = ('src/compute/grid/mod.rs', 'src/compute/grid/track_sizing.rs', 'src/compute/grid/alignment.rs',
+              'src/compute/grid/types/grid_item.rs', 'src/compute/grid/placement.rs', 'src/compute/grid/implicit_grid.rs',
+              'src/compute/grid/explicit_grid.rs')
+GRID_NODE_CALLS = ('perform_child_layout', 'measure_child_size', 'set_unrounded_layout', 'compute_child_layout', 'get_grid_child_style')
+# function -> the first argument its node-addressing tree calls must have
+GRID_CALL_SITES = {
+    'resolve_item_baselines': ('field', ('path', ['item']), 'node'),                  # track_sizing.rs: PBaseline
+    'min_content_contribution': ('field', ('path', ['self']), 'node'),                # grid_item.rs: PMeasure
+    'max_content_contribution': ('field', ('path', ['self']), 'node'),
+    'align_and_position_item': ('path', ['node']),                                    # alignment.rs: position_query_input / position_layout
+}
+
+
+def grid_loops(repo, gtoks, variants, w, fps):
+    """compute_grid_layout's final loop over ALL children (hidden / absolute tests, the canonical hidden pair), and a scan of every call on
+    `tree` in the grid sources: which node it addresses (Model/GridAlg.v turns exactly these into Query / SetLayout)."""
+    _, body, _ = find_fn(gtoks, 'compute_grid_layout')
+    gblk = parse_block(body)
+    loops = [n for n in find_all(gblk, lambda n: n[0] == 'mcall' and n[2] == 'for_each') if n[1][0] == 'range']
+    if len(loops) != 1:
+        raise Refuse('compute_grid_layout: expected exactly one `(0..n).for_each(..)` loop (hidden and absolute children), found %d' % len(loops))
+    lp = loops[0]
+    if lp[1] != ('range', ('lit', '0'), ('mcall', ('path', ['tree']), 'child_count', [('path', ['node'])])):
+        raise Refuse('grid final loop: the range is not 0..tree.child_count(node)')
+    cl = lp[3][0] if len(lp[3]) == 1 else None
+    if not cl or cl[0] != 'closure' or len(cl[1]) != 1 or cl[1][0][0] != 'pident' or cl[2][0] != 'block':
+        raise Refuse('grid final loop: closure form')
+    index = cl[1][0][1]
+    st, tail = cl[2][1], cl[2][2]
+    if len(st) != 3 or tail is None:
+        raise Refuse('grid final loop: body is not `let child; let child_style; if hidden {..} if absolute {..}`')
+    if st[0][0] != 'let' or st[0][1][0] != 'pident' or \
+            st[0][2] != ('mcall', ('path', ['tree']), 'get_child_id', [('path', ['node']), ('path', [index])]):
+        raise Refuse('grid final loop: first statement is not `let child = tree.get_child_id(node, index)`')
+    child = st[0][1][1]
+    if st[1][0] != 'let' or st[1][1][0] != 'pident' or st[1][2] != ('mcall', ('path', ['tree']), 'get_grid_child_style', [('path', [child])]):
+        raise Refuse('grid final loop: second statement is not `let child_style = tree.get_grid_child_style(child)`')
+    style = st[1][1][1]
+    hif = st[2][1] if st[2][0] == 'expr' else None
+    if not hif or hif[0] != 'if' or hif[3] is not None or tail[0] != 'if' or tail[3] is not None:
+        raise Refuse('grid final loop: the two `if`s')
+    fps['grid::final_loop_tests'] = repr((hif[1], tail[1]))
+    params = '{S : Type} (position : S -> GPosition) (box_generation_mode : S -> GBoxGenerationMode) (%s : S)' % style
+    w('Definition grid_final_loop_hidden_test %s : bool :=\n  %s.' % (params, Pred(variants, style_idents=(style,)).b(hif[1])))
+    w('Definition grid_final_loop_absolute_test %s : bool :=\n  %s.' % (params, Pred(variants, style_idents=(style,)).b(tail[1])))
+    # the hidden branch: the canonical pair on `child`, the order counter advanced, then `return`
+    hb = hif[2]
+    calls = tree_calls(hb, GRID_NODE_CALLS)
+    if [c[2] for c in calls] != ['perform_child_layout', 'set_unrounded_layout']:
+        raise Refuse('grid hidden branch: expected perform_child_layout then set_unrounded_layout, found %s' % [c[2] for c in calls])
+    for c in calls:
+        if not c[3] or c[3][0] != ('path', [child]):
+            raise Refuse('grid hidden branch: tree.%s is not addressed to the child' % c[2])
+    if calls[0][3][1:] != CANONICAL_HIDDEN_ARGS:
+        raise Refuse('grid hidden branch: perform_child_layout is not called with (NONE, NONE, MAX_CONTENT, InherentSize, FALSE)')
+    if calls[1][3][1] != ('un', '&', ('call', ('path', ['Layout', 'with_order']), [('path', ['order'])])):
+        raise Refuse('grid hidden branch: the stored layout is not &Layout::with_order(order)')
+    kinds = [x[1][0] if x[0] == 'expr' else x[0] for x in hb[1]] + ([hb[2][0]] if hb[2] is not None else [])
+    bumps = find_all(hb, lambda n: n[0] == 'assign' and n[1] == '+=' and n[2] == ('path', ['order']) and n[3] == ('lit', '1'))
+    if len(bumps) != 1 or 'return' not in kinds:
+        raise Refuse('grid hidden branch: `order += 1; return;` (statement kinds %s)' % kinds)
+    w('(* checked syntactically: the hidden branch is tree.perform_child_layout(child, Size::NONE, Size::NONE, Size::MAX_CONTENT,')
+    w('   SizingMode::InherentSize, Line::FALSE); tree.set_unrounded_layout(child, &Layout::with_order(order)); order += 1; return *)')
+    w('Definition grid_hidden_branch_is_canonical : bool := true.')
+    # the absolute branch: no node call on `tree` of its own; exactly one align_and_position_item(tree, child, order, ..); order += 1
+    ab = tail[2]
+    if tree_calls(ab, GRID_NODE_CALLS):
+        raise Refuse('grid absolute branch: a node call on `tree` outside align_and_position_item')
+    aps = find_all(ab, lambda n: n[0] == 'call' and n[1] == ('path', ['align_and_position_item']))
+    if len(aps) != 1 or aps[0][2][:3] != [('path', ['tree']), ('path', [child]), ('path', ['order'])]:
+        raise Refuse('grid absolute branch: expected one align_and_position_item(tree, child, order, ..)')
+    bumps = find_all(ab, lambda n: n[0] == 'assign' and n[1] == '+=' and n[2] == ('path', ['order']) and n[3] == ('lit', '1'))
+    if len(bumps) != 1:
+        raise Refuse('grid absolute branch: `order += 1`')
+    w('(* checked syntactically: the absolute branch calls align_and_position_item(tree, child, order, ..) once, no other node call, order += 1 *)')
+    w('Definition grid_absolute_branch_is_local : bool := true.')
+    # ---- every call on `tree` that reaches a node, in all grid sources
+    seen = []
+    for rel in GRID_FILES:
+        toks = tokenize(open(repo + '/' + rel).read())
+        names = [toks[i + 1][1] for i in range(len(toks) - 1) if toks[i] == ('id', 'fn') and toks[i + 1][0] == 'id']
+        for fn in names:
+            try:
+                _, fbody, _ = find_fn(toks, fn)
+                fblk = parse_block(fbody)
+            except ParseError:
+                continue
+            for c in tree_calls(fblk, GRID_NODE_CALLS):
+                a0 = c[3][0] if c[3] else None
+                if fn == 'compute_grid_layout':
+                    # the two translated child iterators and the final loop (checked above)
+                    if c[2] == 'get_grid_child_style' or a0 == ('path', [child]):
+                        continue
+                    raise Refuse('compute_grid_layout: tree.%s outside the child iterators and the final loop' % c[2])
+                if fn not in GRID_CALL_SITES:
+                    raise Refuse('%s: tree.%s in fn %s, which the resumption does not model' % (rel, c[2], fn))
+                if a0 != GRID_CALL_SITES[fn]:
+                    raise Refuse('%s: tree.%s in fn %s is not addressed to the expected node' % (rel, c[2], fn))
+                seen.append('%s:%s' % (fn, c[2]))
+    fps['grid::tree_calls'] = ' '.join(seen)
+    w('(* checked syntactically: every call of the grid sources on `tree` that addresses a node (%s) is in the' % ' '.join(GRID_NODE_CALLS))
+    w('   translated child iterators, in the final loop (addressed to that loop\'s child), or one of: %s *)' % ' '.join(seen))
+    w('Definition grid_tree_calls_address_item_only : bool := true.')
 
 
 TARGETS = {'FiltersGen.v': generate}
